@@ -738,7 +738,7 @@ Lemma agrees_event_ext (f g : N -> N) st ws ev o :
   (forall x, f x = g x) -> agrees_event f st ws ev o = agrees_event g st ws ev o.
 Proof.
   intros E. unfold agrees_event. destruct (step_event (st ws) ev) as [w' [|ev' rep]]; [reflexivity|].
-  rewrite (map_ext (fun p : N * N => (fst p, f (snd p))) (fun p => (fst p, g (snd p)))) by (intros p; rewrite E; reflexivity).
-  rewrite (map_ext (fun p : N * N => (fst p, f (snd p))) (fun p => (fst p, g (snd p))) (o_newids o)) by (intros p; rewrite E; reflexivity).
-  reflexivity.
+  assert (M : forall l : list (N * N), map (fun p => (fst p, f (snd p))) l = map (fun p => (fst p, g (snd p))) l).
+  { intros l. apply map_ext. intros p. rewrite E. reflexivity. }
+  rewrite !M. reflexivity.
 Qed.
